@@ -7,6 +7,7 @@ THEOREMS = ["Lou.Chain.insR_sorted", "Lou.Chain.find_first_le", "Lou.C05.addFwdM
             "Lou.C05.select_refines", "Lou.GenFacts.opcode_ranges",
             "Lou.GenFacts.opcode_values_nodup",
             "Lou.C05Link.compile_fwdWF", "Lou.C05Link.compile_select_refines",
+            "Lou.FwdCRefine.translateC_eq_translate",
 ]
 
 CLAIM = dict(
